@@ -25,6 +25,7 @@ import (
 	"sort"
 	"sync/atomic"
 
+	"github.com/syndtr/goleveldb/leveldb"
 	"github.com/syndtr/goleveldb/leveldb/cache"
 	"github.com/syndtr/goleveldb/leveldb/comparer"
 	"github.com/syndtr/goleveldb/leveldb/filter"
@@ -1098,12 +1099,67 @@ func dbCase(c *wk.Ctx, i int, r0 *rand.Rand) {
 				o.Filter, o.AltFilters = settings[cur].f, settings[cur].alts
 				return o
 			}
+			// Snapshots taken on the way keep overwritten versions alive through flushes and compactions (several
+			// versions of one user key in one table, across block and filter-partition boundaries); their reads go
+			// through the filters too and must not lose a version that the snapshot can see.
+			type snapView struct {
+				s  *leveldb.Snapshot
+				m  *model.Map
+				at int
+			}
+			var snaps []snapView
+			sr := rand.New(rand.NewSource(seed ^ 0x736e6170))
+			checkSnaps := func() error {
+				for _, sv := range snaps {
+					for q := 0; q < 80; q++ {
+						k := ru.Keys.Pick(sr)
+						want, live := sv.m.Get(k)
+						got, err := sv.s.Get(k, nil)
+						if live && (err != nil || !bytes.Equal(got, want)) || !live && err != leveldb.ErrNotFound {
+							return &dbx.Mismatch{OpIndex: ru.NOps, What: fmt.Sprintf("Snapshot.Get (snapshot taken at op %d) differs from the frozen model", sv.at), Key: dbx.Hex(k), Got: fmt.Sprintf("%s err=%v", dbx.Hex(got), err), Want: fmt.Sprintf("%s live=%v", dbx.Hex(want), live), Opts: os.Desc, Trace: ru.Trace}
+						}
+						has, herr := sv.s.Has(k, nil)
+						if herr != nil || has != live {
+							return &dbx.Mismatch{OpIndex: ru.NOps, What: fmt.Sprintf("Snapshot.Has (snapshot taken at op %d) = %v err=%v, frozen model live=%v", sv.at, has, herr, live), Key: dbx.Hex(k), Opts: os.Desc, Trace: ru.Trace}
+						}
+						c.Count("db_snapshot_reads", 1)
+					}
+					sv.s.Release()
+				}
+				snaps = nil
+				return nil
+			}
+			defer func() {
+				for _, sv := range snaps {
+					sv.s.Release()
+				}
+			}()
+			// snapshots do not survive a Close: judge and release them right before every one (Step reopens now and then)
+			var snapErr error
+			ru.OnClosing = func() {
+				if err := checkSnaps(); err != nil && snapErr == nil {
+					snapErr = err
+				}
+			}
 			for n := 0; n < nops; n++ {
 				if mm = ru.Step(); mm != nil {
 					return
 				}
+				if snapErr != nil {
+					mm = snapErr
+					return
+				}
+				if sr.Intn(nops/8+1) == 0 && len(snaps) < 5 {
+					if sn, err := ru.DB.GetSnapshot(); err == nil {
+						snaps = append(snaps, snapView{sn, ru.M.Clone(), ru.NOps})
+					}
+				}
 				if n == nops/3 || n == 2*nops/3 {
 					if mm = ru.Reopen(); mm != nil {
+						return
+					}
+					if snapErr != nil {
+						mm = snapErr
 						return
 					}
 					if mm = ru.Sweep(); mm != nil {
@@ -1115,6 +1171,10 @@ func dbCase(c *wk.Ctx, i int, r0 *rand.Rand) {
 				return
 			}
 			if mm = ru.Reopen(); mm != nil {
+				return
+			}
+			if snapErr != nil {
+				mm = snapErr
 				return
 			}
 			if mm = ru.Sweep(); mm != nil {
